@@ -259,4 +259,128 @@ theorem fillCol_seen (lim : Nat) (vs : List (Option Val)) (h : ∃ v ∈ vs, v.i
   unfold fillCol
   exact fold_seen lim vs 0 {} (Or.inr h)
 
+/-! ### the length hint recorded while the column is filled -/
+
+/-- with the size recorded at ingest, the reader's length function is right at every record boundary of the
+column AS FILLED (both modes: consistent size → shortcut, otherwise forward scan) -/
+theorem lenOk_fillCol (lim : Nat) (evs : List (Option Val)) (hsome : ∃ v ∈ evs, v.isSome)
+    (hwf : ∀ v ∈ evs, ∀ x, v = some x → wf x) :
+    LenOk (evs.map getB) ((seenSize (fillCol lim evs).firstRec (fillCol lim evs).sizes).getD inconsistent) := by
+  have inv := fillCol_inv lim evs
+  have hseen := fillCol_seen lim evs hsome
+  have hwf' : ∀ v ∈ evs.map getB, wf v := by
+    intro v hv
+    simp at hv
+    obtain ⟨o, ho, rfl⟩ := hv
+    cases o with
+    | none => simp [getB, wf]
+    | some x => exact hwf _ ho x rfl
+  by_cases hmode : (seenSize (fillCol lim evs).firstRec (fillCol lim evs).sizes).getD inconsistent > 0 ∧
+      (seenSize (fillCol lim evs).firstRec (fillCol lim evs).sizes).getD inconsistent ≠ inconsistent
+  · cases hs : seenSize (fillCol lim evs).firstRec (fillCol lim evs).sizes with
+    | none => simp [hs] at hmode
+    | some c =>
+      simp only [hs, Option.getD_some] at hmode ⊢
+      obtain ⟨hf, hall⟩ := seenSize_consistent _ _ _ hmode.2 hs
+      have hsizes := inv.sizes hseen hf
+      apply lenOk_const _ _ hmode
+      intro v hv
+      apply hall
+      rw [hsizes]
+      exact List.mem_map_of_mem hv
+  · exact lenOk_scan _ _ hmode hwf'
+
+/-! ### type consolidation -/
+
+theorem digitsAux_length (f n : Nat) (acc : Bytes) : (digitsAux f n acc).length ≤ f + acc.length := by
+  induction f generalizing n acc with
+  | zero => simp [digitsAux]
+  | succ f ih =>
+    unfold digitsAux
+    split
+    · simp; omega
+    · have := ih (n / 10) ((48 + n % 10) :: acc)
+      simp at this
+      omega
+
+theorem decText_length (i : Int) : (decText i).length ≤ 21 := by
+  unfold decText decNat
+  split
+  · have := digitsAux_length 20 (-i).toNat []
+    simp at this ⊢
+    omega
+  · have := digitsAux_length 20 i.toNat []
+    simp at this ⊢
+    omega
+
+theorem toNumbers_spec (vs : List Val) : ∀ r, toNumbers vs = some r →
+    r.length = vs.length ∧ ((∀ v ∈ vs, wf v) → ∀ v ∈ r, wf v) := by
+  induction vs with
+  | nil => intro r h; simp [toNumbers] at h; subst h; simp
+  | cons v vs ih =>
+    intro r h
+    unfold toNumbers at h
+    cases ht : toNumbers vs with
+    | none => simp [ht] at h
+    | some r' =>
+      obtain ⟨hl, hw⟩ := ih r' ht
+      simp only [ht] at h
+      have key : ∀ x : Val, wf x → r = x :: r' →
+          r.length = (v :: vs).length ∧ ((∀ y ∈ v :: vs, wf y) → ∀ y ∈ r, wf y) := by
+        intro x hx hr
+        subst hr
+        refine ⟨by simp [hl], fun hall y hy => ?_⟩
+        simp at hy
+        rcases hy with rfl | hy
+        · exact hx
+        · exact hw (fun z hz => hall z (by simp [hz])) y hy
+      cases v with
+      | str s =>
+        cases hp : parseDec? s with
+        | none => simp [hp] at h
+        | some i =>
+          simp [hp] at h
+          refine key _ ?_ h.symm
+          show (i % 18446744073709551616).toNat < 256 ^ NumKind.width .i64
+          simp [NumKind.width]
+          omega
+      | bool b => simp at h
+      | backfill => simp at h; exact key .backfill trivial h.symm
+      | num k b =>
+        cases k <;> simp at h
+        all_goals first
+          | (refine ⟨?_, ?_⟩
+             · subst h; simp [hl]
+             · intro hall y hy
+               subst h
+               simp at hy
+               rcases hy with rfl | hy
+               · exact hall _ (by simp)
+               · exact hw (fun z hz => hall z (by simp [hz])) y hy)
+
+theorem toStrings_spec (vs : List Val) :
+    (toStrings vs).length = vs.length ∧ ((∀ v ∈ vs, wf v) → ∀ v ∈ toStrings vs, wf v) := by
+  refine ⟨by simp [toStrings], ?_⟩
+  intro hall v hv
+  simp only [toStrings, List.mem_map] at hv
+  obtain ⟨x, hx, rfl⟩ := hv
+  have hwx := hall x hx
+  cases x with
+  | str s => exact hwx
+  | backfill => trivial
+  | bool b => cases b <;> (show _ < 65536; simp)
+  | num k b =>
+    cases k <;> try exact hwx
+    show (decText (sext 8 b)).length < 65536
+    have := decText_length (sext 8 b)
+    omega
+
+theorem consolidate_spec (vs : List Val) :
+    (consolidate vs).length = vs.length ∧ ((∀ v ∈ vs, wf v) → ∀ v ∈ consolidate vs, wf v) := by
+  unfold consolidate
+  cases h : toNumbers vs with
+  | some r => exact toNumbers_spec vs r h
+  | none => exact toStrings_spec vs
+
+
 end SigModel.Lemmas.C01
